@@ -14,7 +14,7 @@ LEVEL = "exploration"
 WORKERS = {"quick": 8, "thorough": 16}
 BUDGET = {"quick": 60, "thorough": 480}
 MIN_NONTRIVIAL = {"quick": 100, "thorough": 600}
-REQUIRED_HOOKS = ["history", "evaluate", "reference(zygote)", "bindings-snapshot", "re-evaluation", "fresh-process-crosscheck"]
+REQUIRED_HOOKS = ["history", "evaluate", "reference(zygote)", "bindings-snapshot", "re-evaluation", "fresh-process-crosscheck", "generated-program-evaluation"]
 RULE = (
     "Seeded random histories (length 5-60) over {create Environment (runner I/C x declarations none / simple / dotted a.b / package p with p.x), compile, build "
     "program (with/without host functions), evaluate (bindings: empty / plain / dotted / nested maps / values that make the program fail), parse error, failing "
@@ -90,6 +90,7 @@ class History:
         self.acc, self.zy, self.rnd = acc, zy, rnd
         self.envs = []   # (env, runner, declkind)
         self.progs = []  # (prog, env index, src, functions flag)
+        self.gen_envs = {}  # program index -> activations drawn by the generator (generated programs only)
         self.prev = "start"
         self.log = []
         self.c = None
@@ -218,6 +219,25 @@ class History:
 
 
 ACTIVE_SOURCES = list(range(len(SOURCES)))
+GENERATED_SHARE = 0.3
+
+
+def generated_program(rnd):
+    """A program from the type-directed generator (small value pools: equal and look-alike values recur across programs of one
+    process) with three activations of its variables.  The fixed sources aim at the state named by the property's anchors; these
+    widen the histories to whatever the generator reaches (literals, conversions, comparisons, macros, string functions ...)."""
+    from .. import lang, tgen
+
+    g = tgen.TGen(rnd, small=True, maxdepth=rnd.randint(1, 3), errors=0.05)
+    t = rnd.choice(["bool", "int", "string", ("list", "int"), "double", "uint"])
+    try:
+        node = g.gen(t)
+        src = lang.to_text(node)
+    except Exception:
+        return None
+    if len(src) > 300:
+        return None
+    return src, [g.model_env(), g.redraw_env(), g.redraw_env()]
 
 
 def host_flag(kinds):
@@ -246,6 +266,13 @@ def random_history(acc, zy, rnd, length):
             h.op_env(rnd.choice("IC"), rnd.choice(list(DECLS)))
         elif not h.progs or r < 0.35:
             ei = rnd.randrange(len(h.envs))
+            if rnd.random() < GENERATED_SHARE:
+                gen = generated_program(rnd)
+                if gen is not None:
+                    pi = h.op_program(ei, gen[0], False)
+                    if pi is not None:
+                        h.gen_envs[pi] = gen[1]
+                    continue
             src, kinds = pick_source(rnd, h.envs[ei][2], h.envs[ei][1])
             h.op_program(ei, src, host_flag(kinds))
         elif r < 0.42:
@@ -253,6 +280,10 @@ def random_history(acc, zy, rnd, length):
         else:
             pi = rnd.randrange(len(h.progs))
             prog, ei, src, host = h.progs[pi]
+            if pi in h.gen_envs:
+                h.acc.hook("generated-program-evaluation")
+                h.op_evaluate(pi, dict(rnd.choice(h.gen_envs[pi])))
+                continue
             kinds = next(e[1] for e in SOURCES if e[0] == src)
             bk = rnd.choice([k for k in kinds if k not in ("host", "override")] + (["failing"] if rnd.random() < 0.15 else []))
             h.op_evaluate(pi, dict(rnd.choice(BINDINGS[bk])))
